@@ -86,6 +86,10 @@ impl MemfsEntryOpts {
             0o40755
         });
 
+        // Only the permission bits are taken from the given mode, the type bits always come from the
+        // kind of entry e.g. a directory created with a link's mode is still only a directory
+        let mode = if self.link || self.file || self.dir { mode & 0o7777 } else { mode };
+
         // OR given mode with defaults for physical entries
         self.mode = if self.link {
             mode | 0o120000
